@@ -304,7 +304,7 @@ ChildPlan World::OnSpawn(Kernel& kk, const std::string& cmd, bool console) {
 
   // ---- external editor: changes a source this command has already read
   for (auto& p : rs) r.read_by[p].insert(id);
-  if (r.plan.editor && !r.external_edit) {
+  if (r.plan.editor && !r.editor_scheduled) {
     // restat and generator statements are exempt from "picked up by the next
     // run" (their log entry carries the output's own time), so the editor
     // only touches files no such statement has read in this invocation
@@ -322,9 +322,17 @@ ChildPlan World::OnSpawn(Kernel& kk, const std::string& cmd, bool console) {
     if (!srcs.empty() && tape->Choice(st_stream, 2) == 0) {
       std::string victim = srcs[tape->Choice(st_stream, (uint32_t)srcs.size())];
       int64_t at = (int64_t)tape->Choice(st_stream, (uint32_t)(dur / 1000)) * 1000;
-      r.external_edit = true;
-      r.edited_during.insert(victim);
-      kk.AddActor(at, [self, victim](Kernel& k2) {
+      r.editor_scheduled = true;
+      InvRecord* rp = &r;
+      kk.AddActor(at, [self, victim, rp](Kernel& k2) {
+        // a restat/generator statement may have read the file meanwhile
+        for (int q : rp->read_by[victim]) {
+          const Stmt& qs = self->sc.stmts[q];
+          const DyndepEntry* qe = self->sc.DyndepFor(q);
+          if (qs.restat || qs.generator || (qe && qe->restat)) return;
+        }
+        rp->external_edit = true;
+        rp->edited_during.insert(victim);
         self->version[victim]++;
         k2.WriteFile(victim, self->SourceContent(victim), true);
         self->stats->faults["edit_during_build"]++;
